@@ -213,20 +213,47 @@ class Interp:
             v = Val(fty, term, z3.Select(narr, obj.term))
         else:
             v = Val(fty, term)
+        if is_ref(base) and REG.get(base[1]).kind != "object" and (attr not in REG.shared_fields) and not st.in_old:
+            # ownership discipline (assumed, DESIGN 3.6): a container object referenced from a field is not referenced
+            # from any other field -- two different (object, field) pairs never hold the same dict/list/set
+            own = z3.And(prelude.owner_obj(term) == obj.term, prelude.owner_fld(term) == prelude.field_id(attr))
+            own = z3.Implies(term != NULL, own)
+            if st.spec_depth == 0 or not st.spec_side:
+                st.assume(own)
+            else:
+                st.spec_side[-1].append(own)
         if st.spec_depth == 0:
             st.assume_type_inv(v, finite=attr not in REG.unbounded)
-        else:
-            self.spec_type_inv(st, v)
+        elif is_ref(base):
+            g = None
+            if is_ref(strip_opt(obj.ty)) and obj.term is not None:
+                g = z3.And(obj.term != NULL, st.alloc[obj.term], st.cls_is(obj.term, strip_opt(obj.ty)[1]))
+            self.spec_type_inv(st, v, g)
         return v
 
-    def spec_type_inv(self, st, v):
-        # in spec mode no assumptions are added silently, except well-typedness of heap reads
+    def typed_fact(self, st, v):
+        """`v` is a well-typed reference: non-null (unless optional), allocated, of its declared class"""
+        base = strip_opt(v.ty)
+        inv = st.cls_is(v.term, base[1])
+        if getattr(st, "spec_assume_alloc", True):
+            inv = z3.And(inv, st.alloc[v.term])
+        if REG.get(base[1]).kind == "list":
+            inv = z3.And(inv, z3.Select(st.hget("$len", z3.IntSort()), v.term) >= 0)
+        return z3.Or(v.term == NULL, inv) if is_opt(v.ty) else z3.And(v.term != NULL, inv)
+
+    def spec_type_inv(self, st, v, guard=None):
+        """well-typed-heap facts for values read inside a spec.  They are invariants of every real execution (a field of
+        a typed object holds a typed value; dict values / list elements *in range* are typed), so they are assumed as
+        stand-alone hypotheses -- universally closed when they mention a bound variable (see calls.spec_special)."""
         base = strip_opt(v.ty)
         if is_ref(base) and not st.in_old:
-            inv = st.cls_is(v.term, base[1])
-            if REG.get(base[1]).kind == "list":
-                inv = z3.And(inv, z3.Select(st.hget("$len", z3.IntSort()), v.term) >= 0)
-            st.assume(z3.Or(v.term == NULL, inv) if is_opt(v.ty) else z3.And(v.term != NULL, inv))
+            f = self.typed_fact(st, v)
+            if guard is not None:
+                f = z3.Implies(guard, f)
+            if st.spec_side:
+                st.spec_side[-1].append(f)
+            else:
+                st.assume(f)
 
     def write_field(self, st, obj, attr, fty, val):
         base = strip_opt(fty)
@@ -316,12 +343,27 @@ class Interp:
         arr = st.hget(key, z3.ArraySort(sort_of(kd.K), sort_of(strip_opt(kd.V))))
         st.hset(key, z3.Store(arr, v.term, vals))
 
-    def elem_val(self, st, kd, term):
-        """wrap a content element term of container class kd as Val"""
+    def elem_val(self, st, kd, term, guard=None):
+        """wrap a content element term of container class kd as Val (guard: the element is in the dom / in range)"""
         vt = kd.V
         v = Val(vt, term)
         if st.spec_depth == 0:
             st.assume_type_inv(v)
+        else:
+            self.spec_type_inv(st, v, guard)
+        return v
+
+    def owned_elem(self, st, cont, kterm, v):
+        """ownership discipline for containers stored as dict values: d[k] is owned by (d, k)"""
+        base = strip_opt(v.ty)
+        if is_ref(base) and REG.get(base[1]).kind != "object" and not st.in_old and kterm.sort() == StrS:
+            own = z3.Implies(z3.And(v.term != NULL, z3.Select(self.dom_of(st, cont), kterm)),
+                             z3.And(prelude.owner_obj(v.term) == cont.term, prelude.owner_fld(v.term) == -1,
+                                    prelude.owner_key(v.term) == kterm))
+            if st.spec_depth == 0 or not st.spec_side:
+                st.assume(own)
+            else:
+                st.spec_side[-1].append(own)
         return v
 
     def key_term(self, st, kd, k):
@@ -1028,6 +1070,14 @@ class Interp:
         if base == "Fun":
             return Val("Fun", ("opaque_attr", obj, attr))
         if base == "Any":
+            if obj.extra and obj.extra[0] == "uuid" and attr == "hex":
+                # assumed: uuid4().hex is fresh -- it is not a key of any existing dict (uniqueness is probabilistic)
+                r = obj.extra[1]
+                d = z3.FreshConst(RefS, "d")
+                dom = st.hget("$dom#Str", z3.ArraySort(StrS, z3.BoolSort()))
+                st.assume(z3.ForAll([d], z3.Not(z3.Select(z3.Select(dom, d), r))))
+                st.assume(r != EMPTY_STR)
+                return Val("Str", r)
             return Val("Fun", ("builtin_method", "any." + attr, obj))
         if is_ref(base):
             clsname = base[1]
@@ -1096,7 +1146,7 @@ class Interp:
                 if st.spec_depth == 0:
                     if not st.decide(z3.Select(self.dom_of(st, obj), k)):
                         self.raise_(st, "KeyError", node)
-                return self.elem_val(st, kd, z3.Select(self.vals_of(st, obj), k))
+                return self.owned_elem(st, obj, k, self.elem_val(st, kd, z3.Select(self.vals_of(st, obj), k), z3.Select(self.dom_of(st, obj), k)))
             if kd.kind == "list":
                 ln = self.list_len(st, obj)
                 i = idx.term
@@ -1106,7 +1156,7 @@ class Interp:
                 if st.spec_depth == 0:
                     if not st.decide(z3.And(0 <= i, i < ln)):
                         self.raise_(st, "IndexError", node)
-                return self.elem_val(st, kd, z3.Select(self.list_items(st, obj), i))
+                return self.elem_val(st, kd, z3.Select(self.list_items(st, obj), i), z3.And(0 <= i, i < ln))
             fi = self.find_method(base[1], "__getitem__")
             if fi is not None:
                 from . import calls
